@@ -236,6 +236,32 @@ pub fn run(tier: &str) -> Result<Report, String> {
         rep.add_count("failing_formulae", bad.len() as u64);
         rep.violations.extend(bad.into_iter().take(40));
     }
+    // multi-colour networks of the all-2-variable family (one per colour-count bucket; thorough: 6)
+    let (all2, info) = all2_nets(3, Some(if tier == "quick" { 1 } else { 6 }))?;
+    rep.set("all_2_variable_networks", info);
+    let mut g2 = Gen::new(Alphabet::plain(2, 3));
+    let fs2 = g2.closed_up_to(3);
+    for b in all2.iter().filter(|b| b.cols.len() > 1 && b.cols.len() <= 64) {
+        crate::sem::note_network_light(&mut rep, b);
+        let ctx = NetCtx::new(b.clone(), Labels::default(), "none");
+        let w = Witnesses::new(b)?;
+        let bad: Vec<Violation> = fs2
+            .par_iter()
+            .filter_map(|f| {
+                let bad = check(&ctx, &w, f);
+                if bad.is_empty() {
+                    None
+                } else {
+                    Some(Violation { case: json!({"kind": "colour", "net": b.spec, "aeon": b.aeon, "formula": f, "text": f.show(&ctx.user)}), what: format!("formula {} on {} [{}]: {}", f.show(&ctx.user), b.name, b.aeon.replace('\n', "; "), bad.join(" | ")), size: f.size() })
+                }
+            })
+            .collect();
+        rep.evaluations += fs2.len() as u64 * (1 + b.cols.len() as u64);
+        rep.traces_validated += fs2.len() as u64 * b.cols.len() as u64;
+        rep.distinct_nontrivial += fs2.len() as u64 * b.cols.len() as u64;
+        rep.add_count("formula_colour_pairs_tiny", fs2.len() as u64 * b.cols.len() as u64);
+        rep.violations.extend(bad.into_iter().take(5));
+    }
     // bundled models
     let limit = if tier == "quick" { 20.0 } else { 400.0 };
     let mut jobs = vec![];
@@ -278,6 +304,6 @@ pub fn run(tier: &str) -> Result<Report, String> {
     rep.evaluations += big_total;
     rep.distinct_nontrivial += big_total;
     rep.sample(json!({"network": "unc2", "formula": "(!{x}: (AG (EF {x})))", "check": "for each of the 4 valid colours: states of the parametrised result at that colour == model_check_formula on pick_witness(colour) == explicit-state oracle"}));
-    rep.rule = format!("every core network with more than one valid colour x every closed plain formula with <= {m} nodes and every plain template formula x EVERY valid colour: the state set of the sanitised parametrised result at that colour must equal model_check_formula on the graph of SymbolicAsyncGraph::pick_witness(colour) (and the oracle evaluates every colour in isolation by construction). Bundled models: myeloid with the update functions of its first 2 (thorough: also 4) small-arity variables erased, all colours; thorough adds cell_division and 110_9v on a declared sub-lattice of colours (every 64th). distinct_nontrivial = number of (formula, colour) pairs compared");
+    rep.rule = format!("every core network with more than one valid colour (and a sample of the all-2-variable family: one network per colour-count bucket, thorough six, <= 64 colours, formulae <= 3 nodes) x every closed plain formula with <= {m} nodes and every plain template formula x EVERY valid colour: the state set of the sanitised parametrised result at that colour must equal model_check_formula on the graph of SymbolicAsyncGraph::pick_witness(colour) (and the oracle evaluates every colour in isolation by construction). Bundled models: myeloid with the update functions of its first 2 (thorough: also 4) small-arity variables erased, all colours; thorough adds cell_division and 110_9v on a declared sub-lattice of colours (every 64th). distinct_nontrivial = number of (formula, colour) pairs compared");
     Ok(rep)
 }
